@@ -245,7 +245,60 @@ fn matcha_alternation(q: PTerm) -> PGoal {
     })
 }
 
+fn condu_bracketed_head(q: PTerm) -> PGoal {
+    // the head of the clause is the whole inner bracket
+    proto_vulcan!(|x| {
+        condu {
+            [[member(x, [1, 2, 3]), x != 1], member(q, [x, 10])],
+            [q == 0],
+        }
+    })
+}
+
+fn conda_bracketed_head_fails(q: PTerm) -> PGoal {
+    proto_vulcan!(|x| {
+        conda {
+            [[member(x, [1, 2]), x == 3], q == 1],
+            [q == 2],
+        }
+    })
+}
+
+// ---------------------------------------------------------------------------------- C02
+fn literal_tail_diseq(q: PTerm) -> PGoal {
+    // [x | []] is the one-element list [x]
+    proto_vulcan!(|x| { [x | []] != [7], conde { x == 7, x == 8 }, q == x })
+}
+
+fn literal_tail_eq(q: PTerm) -> PGoal {
+    proto_vulcan!(|y| { [1 | [2, y]] == [1, 2, 3], q == y })
+}
+
+fn literal_tail_diseq_later(q: PTerm) -> PGoal {
+    proto_vulcan!(|l| { l != [1 | [2, 3]], conde { l == [1, 2, 3], l == [1, 2] }, member(q, l) })
+}
+
+fn wildcards_are_distinct(q: PTerm) -> PGoal {
+    proto_vulcan!(|l| { l == [_, _, _], l == [1, 2, 3], member(q, l) })
+}
+
+fn improper_three_heads(q: PTerm) -> PGoal {
+    proto_vulcan!(|t| { [1, 2, 3 | t] == [1, 2, 3, 4, 5], member(q, t) })
+}
+
+fn nested_empty_lists(q: PTerm) -> PGoal {
+    proto_vulcan!(|l| { l == [[], 1, [[]]], conde { [l != [[], 1, [[]]], q == 0], [l == [[], q, _]] } })
+}
+
+fn negative_literals(q: PTerm) -> PGoal {
+    proto_vulcan!(|x| { member(x, [-1, 0, 1]), x != -1, q == x })
+}
+
 // ---------------------------------------------------------------------------------- C06
+fn literal_tail_member(q: PTerm) -> PGoal {
+    proto_vulcan!(|t| { t == [1 | [2, 3]], member(q, t) })
+}
+
 fn match_alternation(q: PTerm) -> PGoal {
     proto_vulcan!(|x| {
         member(x, [[], [1], [1, 2]]),
@@ -336,6 +389,16 @@ pub fn corpus() -> Vec<Entry> {
         e("dfs-nested-brackets", "C05", true, dfs_nested_brackets, &[3, 1, 2]),
         e("dfs-nested-brackets-deep", "C05", true, dfs_nested_brackets_deep, &[5, 6]),
         e("matcha-alternation-arm", "C08", false, matcha_alternation, &[1, 2]),
+        e("condu-bracketed-head", "C08", false, condu_bracketed_head, &[2, 10]),
+        e("conda-bracketed-head-fails", "C08", false, conda_bracketed_head_fails, &[2]),
+        e("literal-tail-disequality", "C02", false, literal_tail_diseq, &[8]),
+        e("literal-tail-equality", "C02", false, literal_tail_eq, &[3]),
+        e("literal-tail-disequality-later", "C02", false, literal_tail_diseq_later, &[1, 2]),
+        e("wildcards-are-distinct", "C02", false, wildcards_are_distinct, &[1, 2, 3]),
+        e("improper-list-three-heads", "C02", false, improper_three_heads, &[4, 5]),
+        e("nested-empty-lists", "C02", false, nested_empty_lists, &[1]),
+        e("negative-literals", "C02", false, negative_literals, &[0, 1]),
+        e("literal-tail-member", "C06", false, literal_tail_member, &[1, 2, 3]),
         e("match-alternation-arm", "C06", false, match_alternation, &[0, 1, 1, 1, 1, 2, 2]),
         e("nested-brackets", "C06", false, nested_brackets, &[13, 14]),
         e("inner-conde-false-clause", "C06", false, inner_false_clause, &[4, 5]),
